@@ -7,7 +7,7 @@
     is outside the model (the property says "up to rounding"). *)
 From Coq Require Import Reals List QArith Qreals.
 From SV Require Import Rot.RotBase Gen.RotFormulas_gen Rot.RotAlgebra Rot.RotAliasProofs Rot.RotEuler Rot.RotEulerProofs
-  Rot.RotDispatch Rot.RotDispatchProofs Rot.RotMixedProofs Rot.RotInplace Gen.RotDispatch_gen Rot.RotGJ Rot.RotGJProofs Rot.RotGJTotal Rot.RotGJTotalProofs Rot.RotGJExample Rot.RotRoundEuler
+  Rot.RotDispatch Rot.RotDispatchProofs Rot.RotMixedProofs Rot.RotInplace Gen.RotDispatch_gen Rot.RotGJ Rot.RotGJProofs Rot.RotGJTotal Rot.RotGJTotalProofs Rot.RotGJExample Rot.RotRoundEuler Rot.RotProperty
   Rot.RotReify Gen.RotReified_gen Rot.RotReifyProofs
   Rot.RotRound Rot.RotRoundProofs Rot.RotRoundFlocq Gen.RotRounded_gen Rot.RotRoundTied.
 Import ListNotations.
@@ -273,6 +273,19 @@ Theorem c04_from_angle_trees_tied : forall p y r,
 Proof. exact from_angle_fe_tied. Qed.
 Theorem c04_rotation_entries_within_1 : forall m, rotation m -> mat_within 1 m.
 Proof. exact rotation_within_1. Qed.
+
+(** ** The whole property in one statement (round 4): [c04_statement] (Rot/RotProperty.v) is the conjunction of: from_angle is a
+    proper rotation equal to roll * pitch * yaw; rotation composes associatively; x @ Angle = x @ Matrix.from_angle(Angle);
+    every row of the dispatch table denotes the specification product with fresh results / untouched operands, @= on a mutable
+    receiver returns the receiver holding the product and on a frozen receiver a new object, the table is complete, every
+    in-place operator method belongs to mutable classes only and returns the receiver it stored into; Matrix -> Angle ->
+    Matrix is exact outside the gimbal band and within 2 * horizontal length inside; inverse() returns transpose() on every
+    rotation.  Hypotheses: atan2 by its specification and the four acceptance tests of the objects read from math.py;
+    Props/C04Today.v proves the four tests for today's generated objects. *)
+Theorem c04_property : forall atan2 tbl prog census,
+  atan2_spec atan2 -> table_ok tbl = true -> gj_prog_ok prog = true -> gj_total_ok prog = true -> census_ok census = true ->
+  c04_statement atan2 tbl prog census.
+Proof. exact c04_whole_property. Qed.
 
 (** Non-vacuity of the Gauss-Jordan theorems: a program equal to today's generated one is accepted and inverse() returns on
     the identity (which is a rotation). *)
